@@ -33,7 +33,14 @@ func c17Gen(rt *rapid.T) e4Case {
 			if r.Extra == 1000 {
 				hn = 100 + nh // one-shot handler that replaces itself (by handler 200+nh) inside its callback
 			}
-			c.Steps = append(c.Steps, e4Step{Kind: "handle", Extra: hn})
+			if connected && (r.Extra == 200 || r.Extra == 20) && hn < 100 {
+				// the registration is held up inside Handle while the connection is being replaced; afterwards a
+				// message arrives on the new connection
+				c.Steps = append(c.Steps, e4Step{Kind: "settle"}, e4Step{Kind: "handleStalled", Extra: hn, ID: 300 + 900*r.QoS},
+					e4Step{Kind: "settle"}, e4Step{Kind: "inject", QoS: r.QoS})
+			} else {
+				c.Steps = append(c.Steps, e4Step{Kind: "handle", Extra: hn})
+			}
 		case r.Kind <= 4:
 			if connected {
 				c.Steps = append(c.Steps, e4Step{Kind: "cutNow"})
@@ -60,7 +67,7 @@ func c17Gen(rt *rapid.T) e4Case {
 		c.Steps = append(c.Steps, e4Step{Kind: "connect"})
 	}
 	c.Inject = rapid.SliceOfN(rapid.Custom(func(rt *rapid.T) e4Inject {
-		return e4Inject{Conn: rapid.IntRange(1, 6).Draw(rt, "conn"), QoS: rapid.IntRange(0, 2).Draw(rt, "qos"), Dup: rapid.IntRange(0, 2).Draw(rt, "dup") == 0}
+		return e4Inject{Conn: rapid.IntRange(1, 6).Draw(rt, "conn"), QoS: rapid.IntRange(0, 2).Draw(rt, "qos"), Dup: rapid.IntRange(0, 2).Draw(rt, "dup") == 0, ReuseID: rapid.IntRange(0, 2).Draw(rt, "reuseID") == 0}
 	}), 0, 8).Draw(rt, "inject")
 	c.Faults = e4GenFaults(rt, e4GenOpts{MaxFaults: 2, FaultKinds: []string{"cut", "dialErr"}, MaxConn: 3})
 	return c
